@@ -273,6 +273,30 @@ def oracle(ck, tier, deep):
                     k = int(np.argmax(bad))
                     ck.violation(dict(site="Distributions", clause="uniform-image", method=method), dict(rep, r=k, c0=float(c0[k])),
                                  f"uniform image {cval:.4g} on a {h}x{w} frame, origin {corner}, rmax={rmax}, {method}: c0({k}) = {c0[k]:.6g} (valid radius)")
+    # the origin is a pair of integers whatever their type: coordinates taken from NumPy arrays of a narrow integer dtype (np.int16
+    # pixel indices …) locate the same pixel as Python integers — also on frames whose squared size does not fit the narrow type
+    for _ in range(10 if not deep else 80):
+        h, w = int(rng.choice([40, 121, 300])), int(rng.choice([60, 200, 501]))
+        im = rng.random((h, w))
+        row, col = int(rng.integers(0, min(h, 120))), int(rng.integers(0, min(w, 120)))
+        for cast in (np.int16, np.uint8, np.int8, np.int64, np.uint16, np.int32):
+            if max(row, col) > np.iinfo(cast).max:
+                continue
+            for rmax in ("all", "MIN", "MAX", 17):
+                ck.count(("S.origin-type", cast.__name__, str(rmax)), suite="S.recover")
+                rep = dict(shape=[h, w], origin=[row, col], cast=cast.__name__, rmax=rmax)
+                try:
+                    a = quiet(quiet(vmi.Distributions, origin=(cast(row), cast(col)), rmax=rmax, order=2).image, im)
+                    b = quiet(quiet(vmi.Distributions, origin=(row, col), rmax=rmax, order=2).image, im)
+                except Exception as e:
+                    ck.violation(dict(site="Distributions", clause="origin-type-exception"), rep, f"{type(e).__name__}: {e}")
+                    continue
+                ca, cb = a.cos(), b.cos()
+                if ca.shape != cb.shape or not np.allclose(ca, cb, rtol=0, atol=1e-12 * max(1.0, float(np.nanmax(np.abs(cb)))), equal_nan=True):
+                    ck.violation(dict(site="Distributions", clause="origin-type"), rep,
+                                 f"origin ({cast.__name__}({row}), {cast.__name__}({col})) on a {h}x{w} frame, rmax={rmax}: "
+                                 f"{ca.shape[1]} radii instead of {cb.shape[1]}" if ca.shape != cb.shape else
+                                 f"origin given as {cast.__name__}: coefficients differ from those for Python integers by {np.nanmax(np.abs(ca - cb)):.3g}")
     # raw camera frames: an image stored as uint8 / uint16 / int32 is analysed as its float64 copy
     for _ in range(20 if not deep else 200):
         h, w = (int(v) for v in rng.integers(15, 40, size=2))
